@@ -133,6 +133,36 @@ pub fn run(tier: Tier) -> i32 {
             })
         });
         total.merge(a);
+        // longer phrases over the class alphabet (valid - rejected - valid shapes, decimals with ordinals ...)
+        let cls = vocab::sigma_cls(l);
+        let kcls = tier.pick(3usize, 4);
+        let a2 = with_concrete!(l, conc => {
+            explore::all_sequences2(&cls, kcls, |syms, acc| {
+                if syms.len() <= k {
+                    return;
+                }
+                acc.states += 1;
+                acc.transitions += 2 * syms.len() as u64;
+                let text = syms.join(" ");
+                let (f, c) = (t2d_obs(&facade, &text), t2d_obs(&conc, &text));
+                let (f1, c1) = (interp_obs(&facade, syms), interp_obs(&conc, syms));
+                let (f2, c2) = (api_obs(&facade, syms, 10.0), api_obs(&conc, syms, 10.0));
+                acc.traces += 3;
+                if f != c || f1 != c1 || f2 != c2 {
+                    let (what, fo, co) = if f != c { ("text2digits", f, c) } else if f1 != c1 { ("interpreter", f1, c1) } else { ("api", f2, c2) };
+                    ctx.report(acc, Violation {
+                        lang: l.code().into(),
+                        entry: what.into(),
+                        input: serde_json::to_string(&syms).unwrap(),
+                        threshold: Some(10.0),
+                        clause: "f(s, Language::L) = f(s, L::new())".into(),
+                        expected: format!("concrete: {co}"),
+                        observed: format!("facade: {fo}"),
+                    });
+                }
+            })
+        });
+        total.merge(a2);
         // ambiguity annotation on token vectors over the ambiguity alphabet
         let amb: Vec<String> = match l {
             L::En => ["o", "one", "twenty", "xyzzy", ",", " ", "zero", "O"].iter().map(|s| s.to_string()).collect(),
